@@ -36,6 +36,9 @@ func (r *FnRun) call(st *State, b *ssa.BasicBlock, idx int, x *ssa.Call) (Val, b
 			if ac.Callee != qn {
 				continue
 			}
+			for p := r; p != nil; p = p.parent {
+				r.E.AtCallHit[p.FnName+"#"+fmt.Sprint(i)] = true
+			}
 			env := r.calleeEnv(st, r.Entry, callee, args)
 			for p := r; p != nil; p = p.parent {
 				for k, v := range p.params {
@@ -322,6 +325,7 @@ type modRange struct {
 
 type modSpec struct {
 	ranges []modRange        // raw memory (width arrays)
+	byte8  []modRange        // raw memory written with byte stores only: the 8-bit view alone changes (bytes8(p, n))
 	fields map[string][]Term // field array -> object addresses whose entry may change
 	all    bool
 	whole  map[string]bool // arrays that may change everywhere
@@ -352,6 +356,13 @@ func (r *FnRun) modSpecOf(env *Env, c *FuncContract) *modSpec {
 			if call, ok := a.(*ECall); ok {
 				if id, ok := call.Fn.(*EIdent); ok && id.Name == "bytes" {
 					ms.ranges = append(ms.ranges, modRange{env.evalTerm(call.Args[0]), env.evalTerm(call.Args[1])})
+					continue
+				}
+				if id, ok := call.Fn.(*EIdent); ok && id.Name == "bytes8" {
+					// only byte-wide stores: in the width-partitioned memory model the wider views keep
+					// their values (the function's own frame obligations for M16/M32/M64 then demand that
+					// they are unchanged EVERYWHERE)
+					ms.byte8 = append(ms.byte8, modRange{env.evalTerm(call.Args[0]), env.evalTerm(call.Args[1])})
 					continue
 				}
 				if id, ok := call.Fn.(*EIdent); ok && id.Name == "array" {
@@ -454,6 +465,9 @@ func (ms *modSpec) mayChange(m string, a Term) Term {
 		}
 		return Or(ds...)
 	}
+	if m == "M8" && len(ms.byte8) > 0 {
+		return inRanges(a, append(append([]modRange{}, ms.ranges...), ms.byte8...))
+	}
 	return inRanges(a, ms.ranges)
 }
 
@@ -464,7 +478,7 @@ func (ms *modSpec) touches(m string) bool {
 	if strings.HasPrefix(m, "F!") {
 		return len(ms.fields[m]) > 0
 	}
-	return len(ms.ranges) > 0
+	return len(ms.ranges) > 0 || (m == "M8" && len(ms.byte8) > 0)
 }
 
 func (r *FnRun) havocModifies(st *State, env *Env, c *FuncContract) {
